@@ -21,7 +21,7 @@ const DIRECTED_G: &[&str] = &[
     // members broken off at every point of their own syntax (the recovery must not reach into the next sibling)
     "void f (", "void f ( in", "int f ( int x ,", "void f ( @A", "void f ( int", "void f ( int x", "void f ( )  =", "void f ( ) = 1 2", "void f ( ) )", "void f",
     "Foo f (", "a . b f ( in a . b", "oneway void f (", "@A void f ( in", "const int", "const int K", "const int K =", "const int K = {", "const int K = { 1 ,",
-    "int x =", "int x = {", "List < int", "List < int >", "Map < String , int", "Foo [", "Foo [ ] [", "f ( )", "void ( )", "A =", "A = =", "A B", "@A ( x = )",
+    "", "int x =", "int x = {", "List < int", "List < int >", "Map < String , int", "Foo [", "Foo [ ] [", "f ( )", "void ( )", "A =", "A = =", "A B", "@A ( x = )",
 ];
 
 fn garbage(rng: &mut Rng, kind: ItemKind) -> Vec<String> {
@@ -95,7 +95,7 @@ fn build_case(rng: &mut Rng, directed: Option<&str>, kind: ItemKind) -> Option<C
         Some(s) => mutate::token_texts(s),
         None => garbage(rng, kind),
     };
-    if gtexts.is_empty() {
+    if gtexts.is_empty() && directed != Some("") {
         return None;
     }
     let gtoks: Vec<Tok> = gtexts.iter().map(|t| tok_of(t)).collect();
